@@ -6,7 +6,8 @@ Domain restrictions: DESIGN appendix B.
 import copy, random
 from n2gen import *
 
-SPELL = [lambda h: h, lambda h: "./" + h, lambda h: "x/../" + h, lambda h: "./x/.././" + h]
+SPELL = [lambda h: h, lambda h: "./" + h, lambda h: "x/../" + h, lambda h: "./x/.././" + h,
+         lambda h: "x\\..\\" + h, lambda h: "x/\\../" + h]
 
 def spell_reads(rnd, creads):
     return [rnd.choice(SPELL)(h) for h in creads]
